@@ -293,6 +293,10 @@ func (r *messageSetReader) readMessageV2(_ int64, key readBytesFunc, val readByt
 				return
 			}
 			r.remain -= batchRemain - int(limitReader.N)
+			// The records are now read from the decompressed buffer, their
+			// lengths add up to its size, not to the compressed size that
+			// was taken from the batch header.
+			r.lengthRemain = r.decompressed.Len()
 			r.readerStack = &readerStack{
 				reader: bufio.NewReaderSize(r.decompressed, 0), // the new stack reads from the decompressed buffer
 				remain: r.decompressed.Len(),
